@@ -94,3 +94,25 @@ def k_relative(n: int, unit: int, neg: bool) -> bool:
     got = zdt.from_date_spec(spec)
     want = c4.date_of(spec)
     return V((got.year, got.month, got.day) == (want.year, want.month, want.day))
+
+
+REL2 = ["0d", "-1d", "7d", "-1m", "1m", "-12m", "1y", "-4y", "0m", "0y"]
+
+
+def k_two_days(r: int, day_a: int, day_b: int) -> bool:
+    """
+    pre: 0 <= r < len(REL2) and 0 <= day_a < len(c4.DAYS) and 0 <= day_b < len(c4.DAYS) and day_a != day_b
+    post: _
+    """
+    # the same relative spec resolved twice in ONE process on two different days: each resolution is an offset from the day
+    # it runs on (nothing date-dependent may be remembered between calls). CrossHair runs with lru_cache bypassed, so a
+    # memoised resolver can only show in the untraced cross-validation of this condition (vlib/concrete_worker.py).
+    spec = c4.pick(REL2, r)
+    ok = True
+    for k in (day_a, day_b):
+        d = c4.pick(list(c4.DAYS), k)
+        hx.FixedDate.TODAY = dt.date(d.year, d.month, d.day)
+        got = zdt.from_date_spec(spec)
+        want = c4.date_of(spec, d)
+        ok = ok and (got.year, got.month, got.day) == (want.year, want.month, want.day)
+    return V(ok)
